@@ -171,6 +171,15 @@ def write_project(proj, h, apps, deps=None):
                                        label) or {}))
             nv.append(len(evolutions))
         proj.write_app(app, versions, evolutions, nv=nv)
+        # an evolution given as {'sqlfile': text} is shipped as
+        # evolutions/<label>.sql instead of a Python module
+        import os
+        for label, texts, _d in evolutions:
+            if isinstance(texts, dict):
+                os.unlink(proj.path(app, 'evolutions', label + '.py'))
+                with open(proj.path(app, 'evolutions', label + '.sql'),
+                          'w') as f:
+                    f.write(texts['sqlfile'])
         labels_at[app] = nv
     return labels_at
 
